@@ -432,9 +432,18 @@ pub fn run_seed(prop: &str, seed: u64, thorough: bool, record: Option<&str>) -> 
             runner.apply(&ev);
         }
     }
-    for _ in 0..n_events {
+    let mut drawn = 0;
+    loop {
         if runner.stopped() {
             break;
+        }
+        // events queued by a burst do not count towards the run's event budget
+        let queued = !gen.pending.is_empty();
+        if !queued {
+            if drawn >= n_events {
+                break;
+            }
+            drawn += 1;
         }
         let ev = gen.step(&mut rng, &runner.world);
         runner.apply(&ev);
